@@ -686,7 +686,11 @@ void list_output_arc(AsmContext *asm_context, uint32_t start, uint32_t end)
       &cycles_min,
       &cycles_max);
 
-    if (count < 4)
+    // A 16 bit instruction can be followed by a 32 bit long immediate
+    // (count is 6): the words behind the opcode start at offset 2 then.
+    const int first = (count < 4 || count == 6) ? 2 : 4;
+
+    if (first == 2)
     {
       opcode = memory->read16(start);
       fprintf(asm_context->list, "0x%04x: %04x     %-40s\n", start, opcode, instruction);
@@ -698,7 +702,7 @@ void list_output_arc(AsmContext *asm_context, uint32_t start, uint32_t end)
       fprintf(asm_context->list, "0x%04x: %08x %-40s\n", start, opcode, instruction);
     }
 
-    for (n = 4; n < count; n = n + 4)
+    for (n = first; n < count; n = n + 4)
     {
       opcode = (memory->read16(start + n) << 16) |
                 memory->read16(start + n + 2);
@@ -738,7 +742,10 @@ void disasm_range_arc(
       &cycles_min,
       &cycles_max);
 
-    if (count < 4)
+    // 16 bit instruction with a 32 bit long immediate: see list_output_arc.
+    const int first = (count < 4 || count == 6) ? 2 : 4;
+
+    if (first == 2)
     {
       opcode = memory->read16(start);
       printf("0x%04x: %04x     %-40s\n", start, opcode, instruction);
@@ -751,7 +758,7 @@ void disasm_range_arc(
       printf("0x%04x: %08x %-40s\n", start, opcode, instruction);
     }
 
-    for (n = 4; n < count; n = n + 4)
+    for (n = first; n < count; n = n + 4)
     {
       opcode = (memory->read16(start + n) << 16) |
                 memory->read16(start + n + 2);
